@@ -41,13 +41,11 @@ PROPS = {
             'parsers of the 28 serializer-only kinds; the 12 kinds with filters / optional fields / bus events / connect data; '
             'the Message dispatcher',
         ],
-        explanation='per message kind: (51 kinds) serialize_message writes the kind, exactly the kind\'s field sequence and the '
-                    'payload unchanged; (23 of them) deserialize_message accepts exactly the frames of that kind whose field '
-                    'sequence is the encoding of some message, with nothing left over, and returns that message with the '
-                    'identical payload. Original wording for the 23: serialize_message writes the kind, exactly the kind\'s field sequence and '
-                    'the payload unchanged; deserialize_message accepts exactly the frames of that kind whose field sequence '
-                    'is the encoding of some message, with nothing left over, and returns that message with the identical '
-                    'payload (round trip and strictness at the level of fields)',
+        explanation='per message kind, on the verbatim functions: (51 of 63 kinds) serialize_message writes the kind, exactly '
+                    'the kind\'s field sequence and the payload unchanged; (23 of them) deserialize_message accepts exactly the '
+                    'frames of that kind whose field sequence is the encoding of some message, with nothing left over, and '
+                    'returns that message with the identical payload (round trip and strictness at the level of fields, '
+                    'against an assumed field-sequence model of the primitives); MessageBufExt varint/discriminant bytes (Kani)',
     ),
     'C02': dict(
         level='proof',
@@ -89,7 +87,9 @@ PROPS = {
             'HashSet<BusListenerFilter> + ConnectionId state is outside Kani)',
         ],
         explanation='filter predicate equals its specification for all six filter shapes, all ids and all four bus '
-                    'events (Kani, complete); listener start/stop state machine and flag reset (Verus)',
+                    'events (Kani, complete); listener start/stop state machine and flag reset (Verus); handler layer: only the '
+                    'owning connection can destroy, stop or change the filters of a listener, a destroyed listener is gone, a '
+                    'stopped one is not started (Verus, against the contracts of BusListener and ConnectionState)',
     ),
     'C12': dict(
         level='proof',
@@ -180,16 +180,19 @@ PROPS = {
         verus_units=['broker_channel', 'broker_handlers_channel', 'broker_conn_id'],
         trusted_base=TB_VERUS + TB_CONN + ['std::mem::replace specification'],
         assumptions=[
-            'callers (Broker::{send_item, add_channel_capacity, claim_channel_end, close_channel_end, '
-            'remove_channel_end, create_channel}) establish inv/live and act on results as specified: NOT verified '
-            '(handler layer is outside Verus\'s accepted subset)',
+            'Broker::remove_channel_end is ASSUMED (closure capturing &mut self is outside Verus\'s subset); '
+            'claim_channel_end, create_channel, shutdown_connection are not verified',
         ],
         undecided_clauses=[
             'in-order exactly-once delivery of ItemReceived on the wire (handler layer + transport)',
-            'peer notification fan-out in Broker::remove_channel_end / claim_channel_end',
+            'peer notification in Broker::remove_channel_end / claim_channel_end (messages on the wire are not in the state model)',
             'client-side Sender/Receiver mirrors (aldrin/src/low_level/channel/established.rs) under schedules',
         ],
         explanation='inductive invariant + per-operation pre/postconditions on the verbatim text of '
-                    'broker/src/broker/channel.rs, discharged by Verus for all states and all histories',
+                    'broker/src/broker/channel.rs (credit accounting, end state machine); handler layer: '
+                    'Broker::{send_item, add_channel_capacity, close_channel_end} verified against the contracts of Channel and '
+                    'ConnectionState under a cross-structure invariant (over-capacity sender loses only its own end, overflowing '
+                    'grant closes only the receiver, only the owner closes); the id allocator behind ConnectionId hands out '
+                    'pairwise distinct ids. All discharged by Verus for all states and all histories of verified operations',
     ),
 }
